@@ -168,7 +168,11 @@ static ebus_protocol_config_t env_config() {
   c.slaveRecvTimeout = vp_nondet_bool() ? 15 : 60;
   uint8_t lc = vp_nondet_u8() % 4;
   c.lockCount = lc == 0 ? 0 : lc == 1 ? 1 : lc == 2 ? 3 : 5;
+#ifdef ENV_GENSYN
+  c.generateSyn = ENV_GENSYN;   // job parameter: fixing it lets symbolic execution prune the AUTO-SYN path (or not)
+#else
   c.generateSyn = vp_nondet_bool();
+#endif
   c.initialSend = false;
   return c;
 }
